@@ -168,7 +168,7 @@ macro_rules! to_heap {
 }
 
 // zero-sized elements: lengths still matter, no block is ever requested
-// @gen macro=heap_zst name=c15_heap_zst props=C15,C16 quick=U0,0;U3,3 thorough=U1,1
+// @gen macro=heap_zst name=c15_heap_zst props=C08,C15,C16 quick=U0,0;U3,3 thorough=U1,1
 macro_rules! heap_zst {
     ($name:ident, $N:ty, $n:expr) => {
         #[kani::proof]
